@@ -1,6 +1,6 @@
 # configuration of ./check for property C04 (see props_config.py)
 CONFIG = {'gen': ['SmbCommands'],
- 'drivers': ['Smb'],
+ 'drivers': ['Smb', 'SmbDialects'],
  'rule': 'cases = for each of the 114 command structures reachable from the request/response factories: field assignments generated from '
          'the extracted programs (length/count fields made to agree with their buffers; boundary-biased integers; byte-distinct values; '
          'nested values in their domain; every buffer format where Marshal sets none; for AndX commands an AndX block set through SetAndX '
